@@ -193,6 +193,53 @@ func TestC18Exhaustive(t *testing.T) {
 		desc = append(desc, map[string]any{"part": "value-type iterator kinds", "alphabet": 2, "max_input_len": 2, "kind_pairs": len(pairs),
 			"sequences_per_input": len(seqs), "program_depth_hnr": depth, "cases_this_shard": n})
 	}
+	// part 4: sources whose Reset fails transiently. Failure plans (first k Reset calls of the source of input 1 / input 2
+	// fail): (1,0) (0,1) (1,1) (2,0) (0,2) (2,1), each with a library error class and with a plain error; source pairs
+	// slice/slice, slice/disparity, valcmp/slice; inputs over {1,2} of length 0..2; every program over {h,n,r} to depth 4
+	// (thorough 5) that contains a Reset. After the program the harness resets until both sources accept and drains.
+	{
+		plans := [][2]int{{1, 0}, {0, 1}, {1, 1}, {2, 0}, {0, 2}, {2, 1}}
+		errs := []string{"unimplemented", "plain"}
+		pairs := [][2]string{{KSlice, KSlice}, {KSlice, KDisparity}, {KValCmp, KSlice}}
+		seqs := allSeqs(2, 2)
+		depth := vstat.Pick(4, 5)
+		n := int64(0)
+		for _, prog := range allPrograms(3, depth) {
+			if strings.IndexByte(prog, 'r') < 0 {
+				continue
+			}
+			for _, a := range seqs {
+				for _, b := range seqs {
+					combo++
+					if combo%shards != shard {
+						continue
+					}
+					for _, sel := range Selectors {
+						for _, k := range pairs {
+							for _, pl := range plans {
+								for _, e := range errs {
+									c := Case{A: a, B: b, KA: k[0], KB: k[1], Sel: sel, Prog: prog}
+									if pl[0] > 0 {
+										c.FA = &Flaky{K: pl[0], Err: e}
+									}
+									if pl[1] > 0 {
+										c.FB = &Flaky{K: pl[1], Err: e}
+									}
+									info, v := Run(c)
+									st.Report(t, "TestC18Exhaustive", c, v)
+									record(c, info)
+									n++
+								}
+							}
+						}
+					}
+				}
+			}
+		}
+		total += n
+		desc = append(desc, map[string]any{"part": "sources whose Reset fails transiently", "alphabet": 2, "max_input_len": 2, "kind_pairs": len(pairs),
+			"failure_plans": len(plans), "error_classes": len(errs), "sequences_per_input": len(seqs), "program_depth_hnr_with_a_reset": depth, "cases_this_shard": n})
+	}
 	st.SetExhaustive("mixer_pairs_x_selectors_x_kinds_x_programs", map[string]any{
 		"parts": desc, "selectors": len(Selectors), "source_kinds_per_input": len(Kinds), "cases_this_shard": total, "shards": shards})
 }
@@ -228,6 +275,11 @@ func genSeq(t *rapid.T, label string, sel string) []int {
 	return s
 }
 
+// genFlaky draws a transient-failure plan for the Reset of one source.
+func genFlaky(t *rapid.T, label string) *Flaky {
+	return &Flaky{K: rapid.SampledFrom([]int{1, 1, 1, 2, 3}).Draw(t, "flakyK"+label), Err: rapid.SampledFrom(FlakyErrs).Draw(t, "flakyErr"+label)}
+}
+
 func genCase(t *rapid.T) Case {
 	c := Case{}
 	c.Sel = rapid.SampledFrom(Selectors).Draw(t, "sel")
@@ -252,6 +304,17 @@ func genCase(t *rapid.T) Case {
 		}
 	}
 	resetW := rapid.SampledFrom([]int{0, 1, 3}).Draw(t, "resetWeight")
+	// one case in five: the source of input 1, of input 2 or of both fails its first 1..3 Reset calls
+	if rapid.IntRange(0, 4).Draw(t, "flaky") == 0 {
+		c.FA, c.FB = genFlaky(t, "A"), genFlaky(t, "B")
+		switch rapid.IntRange(0, 2).Draw(t, "flakySide") {
+		case 0:
+			c.FB = nil
+		case 1:
+			c.FA = nil
+		}
+		resetW = rapid.SampledFrom([]int{1, 3, 3}).Draw(t, "flakyResetWeight")
+	}
 	call := rapid.Custom(func(t *rapid.T) byte {
 		k := rapid.IntRange(0, 19+resetW+initW).Draw(t, "call")
 		switch {
@@ -382,6 +445,18 @@ func genRound(t *rapid.T) Round {
 	}
 	r.NilEmpty = rapid.Bool().Draw(t, "nilEmpty")
 	resetW := rapid.SampledFrom([]int{0, 1, 3}).Draw(t, "resetWeight")
+	// one round in five: 1..2 leaves (rarely every leaf) fail their first 1..3 Reset calls
+	if rapid.IntRange(0, 4).Draw(t, "flaky") == 0 {
+		r.Flaky = make([]Flaky, n)
+		every := rapid.IntRange(0, 7).Draw(t, "flakyEvery") == 0
+		picks := []int{rapid.IntRange(0, n-1).Draw(t, "flakyLeaf"), rapid.IntRange(0, n-1).Draw(t, "flakyLeaf2")}
+		for i := range r.Flaky {
+			if every || i == picks[0] || i == picks[1] {
+				r.Flaky[i] = *genFlaky(t, "")
+			}
+		}
+		resetW = rapid.SampledFrom([]int{1, 3, 3}).Draw(t, "flakyResetWeight")
+	}
 	r.Prog = genProg(t, "prog", rapid.SampledFrom([]int{0, 4, 12, 60}).Draw(t, "maxProg"), resetW)
 	r.Hold = rapid.SampledFrom([]int{0, 0, 0, 1, 1, 2, 5}).Draw(t, "hold")
 	if r.Hold > 0 {
